@@ -373,6 +373,10 @@ func schedChoices(e *mc.SchedExec) []int { return e.Choices() }
 // c19ColdHorizon: preemptions of a cold-start execution are explored at its first 60 points.
 const c19ColdHorizon = 60
 
+// c19Instrumented: alphabet entries offer their long variants (thousands of scheduling points
+// each) to the plain and -race binaries only.
+const c19Instrumented = true
+
 type c19ColdRun struct {
 	mc.SchedRun
 	Want []string
